@@ -44,7 +44,12 @@
         save() is unanswered are covered for every rejected answer, for an acknowledged one when they are
         reads / needs_save() / assignments / in-place edits (no second save(), no event)]
        Key lemma: parse_keywords(arg, multiline_values=False) groups the lines of EVERY event of
-       the envelope by key (Proofs/CfgEvent.event_dict). *)
+       the envelope by key (Proofs/CfgEvent.event_dict).
+     - announced values the declared numeric / boolean type cannot read (`650-ORPort=auto`) lie outside
+       the envelope; the checks judge the settled history (Spec.C11.settle): settling is the identity on
+       every in-scope input and idempotent, and the settled witness is accepted with the unreadable
+       option keeping its view  (C11_settle_identity_in_scope, C11_settle_idempotent,
+                                 C11_unparsable_item_settled) *)
 From Coq Require Import String.
 From Coq Require Import List Bool Ascii Arith NArith ZArith.
 From TxVerif Require Import Lib.Bytes Lib.CfgLib Spec.CfgTypes Spec.TorStore Spec.CfgOracle Spec.C10 Spec.C11
@@ -176,6 +181,13 @@ Print Assumptions C11_unparsable_item_settled.
 Theorem C11_settle_idempotent : forall i, settle (settle i) = settle i.
 Proof. exact settle_idem. Qed.
 Print Assumptions C11_settle_idempotent.
+
+(* inside the envelope nothing is unreadable (every announced value of a numeric / boolean option parses
+   by its declared type), so for EVERY in-scope input the settled history is the history itself: the
+   verdicts the checks compute on `settle i` are those of `i`, and the theorems above apply to them *)
+Theorem C11_settle_identity_in_scope : forall i, c11_scope i = true -> settle i = i.
+Proof. exact c11_scope_settled. Qed.
+Print Assumptions C11_settle_identity_in_scope.
 
 (* ---- the open finding: the full statement fails on a concrete input of the class ---- *)
 Theorem C11_edit_while_detached_refuted :
